@@ -338,9 +338,17 @@ func printHCLFromAST(lb, hb string) (string, error) {
 			if blk.k != 'm' {
 				return "", fmt.Errorf("lb: a locals block is not a map")
 			}
-			out.WriteString("locals {\n")
+			out.WriteString("locals")
 			for i, k := range blk.keys {
-				out.WriteString("  " + k + " = " + blk.list[i].expr() + "\n")
+				if k == labelKey {
+					out.WriteString(" " + hclQuote(blk.list[i].s))
+				}
+			}
+			out.WriteString(" {\n")
+			for i, k := range blk.keys {
+				if k != labelKey {
+					out.WriteString("  " + k + " = " + blk.list[i].expr() + "\n")
+				}
 			}
 			out.WriteString("}\n")
 		}
